@@ -312,10 +312,34 @@ def generate():
         and isinstance(b[-1], ast.Raise) and ast.unparse(b[-1].exc).startswith("KeyError(")
     if not ok:
         U("Tub.getReferenceForName changed")
-    want_loop = "for lookup in self.nameLookupHandlers:\n    ref = lookup(name)\n    if ref:\n        if ref not in self.referenceToName:\n" \
-                "            self.referenceToName[ref] = name\n        return ref"
-    if ast.unparse(b[1]) != want_loop:
+    loop = b[1]
+    ok2 = (ast.unparse(loop.target) == "lookup" and len(loop.body) == 2 and ast.unparse(loop.body[0]) == "ref = lookup(name)"
+           and isinstance(loop.body[1], ast.If) and ast.unparse(loop.body[1].test) == "ref" and not loop.body[1].orelse
+           and not loop.orelse and ast.unparse(loop.body[1].body[-1]) == "return ref")
+    if not ok2:
         U("Tub.getReferenceForName: handler loop changed")
+    # what the loop records before returning a handler's answer
+    assigned = set()
+    for st_ in loop.body[1].body[:-1]:
+        for n_ in ast.walk(st_):
+            if isinstance(n_, ast.Assign):
+                for t_ in n_.targets:
+                    assigned.add(ast.unparse(t_))
+            elif isinstance(n_, (ast.AugAssign, ast.Delete, ast.Call)) and not (isinstance(n_, ast.Call)):
+                U("Tub.getReferenceForName: handler loop does more than assignments")
+    if not assigned <= {"self.referenceToName[ref]", "self.nameToReference[name]"}:
+        U("Tub.getReferenceForName: handler loop assigns %s" % sorted(assigned))
+    if "self.referenceToName[ref]" not in assigned or \
+            "if ref not in self.referenceToName:" not in ast.unparse(loop.body[1]):
+        U("Tub.getReferenceForName: handler loop no longer records referenceToName[ref] when absent")
+    cached = "self.nameToReference[name]" in assigned
+    if cached:
+        # only the form `self.nameToReference[name] = ref` under the same guard as referenceToName is understood
+        g_ = [x for x in loop.body[1].body if isinstance(x, ast.If) and ast.unparse(x.test) == "ref not in self.referenceToName"]
+        if len(g_) != 1 or "self.nameToReference[name] = ref" not in [ast.unparse(x) for x in g_[0].body]:
+            U("Tub.getReferenceForName: handler answers are cached in an unexpected way")
+    out.append("Definition handler_answers_cached : bool := %s.  (* does a handler's answer enter Tub.nameToReference? *)"
+               % ("true" if cached else "false"))
     out.append("Definition name_lookup_shape : bool := true.  (* table first, then handlers in order, else KeyError *)")
     an = P.find_def(pm, "Tub._assignName")
     want = ["if not self.locationHints:\n    return None", "if ref in self.referenceToName:\n    return self.referenceToName[ref]",
@@ -333,6 +357,43 @@ def generate():
     ur = P.find_def(pm, "Tub.unregisterReference")
     frags(ur, "Tub.unregisterReference", ["name = self.referenceToName[ref]", "del self.nameToReference[name]",
                                          "del self.referenceToName[ref]"])
+
+    # ---- copyable.py: which registry a registration lands in
+    cpm = P.load("copyable.py")
+    ruf = P.find_def(cpm, "registerRemoteCopyUnslicerFactory")
+    tests = [x for x in ruf.body if isinstance(x, ast.If) and ast.unparse(x.body[0]) == "registry = CopyableRegistry"]
+    if len(tests) != 1 or len(tests[0].body) != 1 or tests[0].orelse:
+        U("registerRemoteCopyUnslicerFactory: `if <test>: registry = CopyableRegistry` not found exactly once")
+    t = ast.unparse(tests[0].test)
+    out.append("Inductive default_test := DefaultIfNone | DefaultIfFalsy.")
+    if t in ("registry == None", "registry is None", "None == registry", "None is registry"):
+        out.append("Definition default_registry_test : default_test := DefaultIfNone.")
+    elif t in ("not registry", "not bool(registry)", "len(registry) == 0", "registry in (None, {})", "registry == None or not registry",
+               "registry is None or not registry"):
+        out.append("Definition default_registry_test : default_test := DefaultIfFalsy.")
+    else:
+        U("registerRemoteCopyUnslicerFactory: default-registry test not understood: " + t)
+    idx = ruf.body.index(tests[0])
+    tail = [ast.unparse(x) for x in ruf.body[idx + 1:]]
+    if tail != ["assert typename not in registry", "registry[typename] = unslicerfactory"]:
+        U("registerRemoteCopyUnslicerFactory: tail changed: %s" % tail)
+    if any("registry" in ast.unparse(x) for x in ruf.body[:idx]):
+        U("registerRemoteCopyUnslicerFactory: registry is used before the default test")
+    # the two wrappers and the metaclass pass the caller's registry through unchanged
+    rcf = P.find_def(cpm, "registerRemoteCopyFactory")
+    calls_ = [ast.unparse(n) for n in ast.walk(rcf) if isinstance(n, ast.Call) and ast.unparse(n.func) == "registerRemoteCopyUnslicerFactory"]
+    if len(calls_) != 2 or not all(c.endswith(", registry)") for c in calls_):
+        U("registerRemoteCopyFactory no longer passes registry through: %s" % calls_)
+    if any(isinstance(n, ast.Assign) and "registry" in [ast.unparse(t_) for t_ in n.targets] for n in ast.walk(rcf)):
+        U("registerRemoteCopyFactory rebinds registry")
+    rcp = P.find_def(cpm, "registerRemoteCopy")
+    calls_ = [ast.unparse(n) for n in ast.walk(rcp) if isinstance(n, ast.Call) and ast.unparse(n.func) == "registerRemoteCopyFactory"]
+    if len(calls_) != 1 or not calls_[0].endswith(", registry)"):
+        U("registerRemoteCopy no longer passes registry through: %s" % calls_)
+    if any(isinstance(n, ast.Assign) and "registry" in [ast.unparse(t_) for t_ in n.targets] for n in ast.walk(rcp)):
+        U("registerRemoteCopy rebinds registry")
+    mc = P.find_def(cpm, "RemoteCopyClass.__init__")
+    frags(mc, "RemoteCopyClass.__init__", ["registry = dict.get('copyableRegistry', None)", "registerRemoteCopy(copytype, self, registry)"])
 
     # ---- registries as they are after import
     src = os.path.join(P.REPO, "src")
